@@ -160,6 +160,10 @@ static pid_t process_fork(const int *except, size_t num_except)
 
   r = pipe_init(&pipe.read, &pipe.write);
   if (r < 0) {
+    // Don't leave the caller with all its signals blocked.
+    int q = signal_mask(SIG_SETMASK, &mask.old, NULL);
+    ASSERT_UNUSED(q == 0);
+
     return r;
   }
 
@@ -169,7 +173,7 @@ static pid_t process_fork(const int *except, size_t num_except)
 
     r = -errno; // Save `errno`.
 
-    int q = signal_mask(SIG_SETMASK, &mask.new, &mask.old);
+    int q = signal_mask(SIG_SETMASK, &mask.old, NULL);
     ASSERT_UNUSED(q == 0);
 
     pipe_destroy(pipe.read);
